@@ -46,6 +46,14 @@
 // predicate, inside the second, or between them), evaluated by applyRule (glmc, glmo) and inside
 // a lookahead by lookaheadRule (glmr, recursiveLookaheads).
 //
+// Histories (values are reused): a parse that was CANCELLED (pads x k + a comment + one statement +
+// tail, k over the same phases, so that the poll lands before, on and after the shift that follows
+// the comment; cancelled before Parse and at the first callbacks) is followed by a second,
+// uncancelled parse on the SAME Parser and TokenStream / Lexer values after Init; its error,
+// value and events must equal what fresh values give. Generated parsers whose comment-like token
+// is reported through the listener (tokenStream, plain Lexer, optimizeTables+cancellableFetch)
+// and the shipped js, tm and test parsers.
+//
 // A finding whose run polled the context at least twice after the cancellation gets the key
 // prefix "poll-saw-cancellation-but-parse-continued": some poll saw the closed Done channel and
 // its answer was dropped on the way to Parse's return.
@@ -303,7 +311,17 @@ type vOut struct {
 
 // verifParse parses text; the context is cancelled when the lexers have delivered s tokens
 // (s == 0: before Parse is called; s < 0: never; s == -3: an expired deadline context).
-func verifParse(text string, s int, keep bool) (o vOut) {
+func verifParse(text string, s int, keep bool) vOut { return verifParseOn(&vInst{}, text, s, keep) }
+
+// vInst is one Parser value together with its Lexer / TokenStream value. verifParse uses a fresh
+// one per parse; histories parse several inputs on the same one (Init is called before each parse,
+// as the parsers' own tests do).
+type vInst struct {
+	p Parser
+	INSTFIELD
+}
+
+func verifParseOn(inst *vInst, text string, s int, keep bool) (o vOut) {
 	base, cancel := context.WithCancel(context.Background())
 	defer cancel()
 	if s == -3 {
@@ -357,7 +375,7 @@ func verifParse(text string, s int, keep bool) (o vOut) {
 		return true
 	}
 	_ = eh
-	var p Parser
+	p := &inst.p
 	PARSERINIT
 	var err error
 	PARSECALL
@@ -376,6 +394,11 @@ func verifParse(text string, s int, keep bool) (o vOut) {
 		}
 	}
 	return o
+}
+
+// outcome is what a caller can observe of one parse: error, value, events (count + chain hash).
+func (o *vOut) outcome() string {
+	return fmt.Sprintf("%s value=%d events=%d hash=%d", o.errKind, o.value, o.evN, o.evH)
 }
 
 func (o *vOut) record(s int) string {
@@ -424,6 +447,30 @@ func VerifRun(entry, mode, text string) (res rt.Result) {
 		res.Extra = map[string]any{"record": o.record(s), "pollClock": o.pollClock}
 		return res
 	}
+	if mode == "hist" {
+		// input = p1 NUL p2 NUL p2' ...: for every moment s, p1 is parsed with the context
+		// cancelled at s, then each p2 is parsed (never cancelled) on the SAME parser and
+		// lexer/stream values; its outcome must equal a fresh instance's outcome on p2.
+		parts := strings.Split(input, "\x00")
+		var diffs []any
+		runs := 0
+		for j := 1; j < len(parts); j++ {
+			f := verifParse(parts[j], -1, false)
+			want := f.outcome()
+			for _, s := range moments {
+				inst := &vInst{}
+				first := verifParseOn(inst, parts[0], s, false)
+				o := verifParseOn(inst, parts[j], -1, false)
+				runs++
+				if got := o.outcome(); got != want && len(diffs) < 8 {
+					diffs = append(diffs, []any{s, j, first.errKind, got, want})
+				}
+			}
+		}
+		res.Accept = true
+		res.Extra = map[string]any{"diffs": diffs, "runs": runs}
+		return res
+	}
 	extra := map[string]any{}
 	if mode == "refsweep" {
 		// the uncancelled reference run and the sweep in one case; "all" in the moment list
@@ -464,9 +511,11 @@ func driver(g *grammar.Grammar, name string) string {
 	}
 	var call string
 	if g.Options.TokenStream {
-		call = "var st TokenStream\n\tst.Init(text, listener)\n\t" + lhs + " p.Parse(ctx, &st)"
+		src = strings.ReplaceAll(src, "INSTFIELD", "st TokenStream")
+		call = "inst.st.Init(text, listener)\n\t" + lhs + " p.Parse(ctx, &inst.st)"
 	} else {
-		call = "var l Lexer\n\tl.Init(text)\n\t" + lhs + " p.Parse(ctx, &l)"
+		src = strings.ReplaceAll(src, "INSTFIELD", "l Lexer")
+		call = "inst.l.Init(text)\n\t" + lhs + " p.Parse(ctx, &inst.l)"
 	}
 	if g.Parser.IsRecovering {
 		src = strings.ReplaceAll(src, "PARSERINIT", "p.Init(eh, listener)")
@@ -948,6 +997,119 @@ func layerB2(c *core.Ctx, st *stats) {
 			c.Capped(p.Name + ": no error-handler call in the reference runs (malformed inputs are not malformed)")
 		}
 	}
+}
+
+// --- histories: a cancelled parse followed by another parse on the same values -----------------
+
+// A list grammar whose white-space-like token '!' ("comment") is reported through the listener:
+// such tokens wait in the parser's / token stream's `pending` queue until the next shift.
+const histLexer = `
+:: lexer
+
+WhiteSpace: /[ \n]+/ (space)
+cm: /!/ (space)
+ta: /a/  { verifTick() }
+tb: /b/  { verifTick() }
+`
+
+const histParser = `
+:: parser
+
+%input S;
+
+%inject cm -> Comment;
+
+S -> Root: Elem+ ;
+Elem -> Elem: ta | tb ;
+`
+
+type histCase struct {
+	Parser string   `json:"hist_parser"`
+	TM     string   `json:"tm"`
+	First  string   `json:"first"`
+	Second []string `json:"second"`
+	S      int      `json:"s"`
+}
+
+// histSeconds are the inputs parsed after the cancelled one: a leading comment, a comment in the
+// middle, no comment but longer than the position where the first parse stopped, and a plain one.
+var histSeconds = []string{"!a", "ab!a!", strings.Repeat(" ", 700) + "a!b", "ab"}
+
+const histMoments = "m=0:3:1;m=505:516:1"
+
+func layerB3(c *core.Ctx, st *stats) {
+	ps := []genParser{
+		{Name: "glhs", TM: header("glhs", "tokenStream = true") + histLexer + histParser},
+		{Name: "glhl", TM: header("glhl") + histLexer + histParser},
+		{Name: "glho", TM: header("glho", "tokenStream = true", "optimizeTables = true", "cancellableFetch = true") + histLexer + histParser},
+	}
+	var firsts []genInput
+	for _, k := range phaseKs(c.Quick()) {
+		// the comment sits in front of token k+1; k decides where that token is relative to the poll
+		firsts = append(firsts, genInput{fmt.Sprintf("pad%d", k), strings.Repeat("a", k) + " ! a" + strings.Repeat("b", 700)})
+	}
+	var specs []genharness.Spec
+	for _, p := range ps {
+		var cases []genharness.Case
+		for _, f := range firsts {
+			cases = append(cases, genharness.Case{Mode: "hist", Text: histMoments + ";in=" + f.Text + "\x00" + strings.Join(histSeconds, "\x00")})
+		}
+		specs = append(specs, genharness.Spec{Name: p.Name, TM: p.TM, Driver: driver, Cases: cases})
+	}
+	t0 := time.Now()
+	outs, err := genharness.RunBatch(specs, genharness.BatchOpts{CaseTimeout: 300 * time.Second})
+	debugf("history batch %.1fs", time.Since(t0).Seconds())
+	if err != nil {
+		c.Violate("layerB:harness", err.Error(), nil)
+		return
+	}
+	for i, p := range ps {
+		out := outs[i]
+		if out.GenErr != "" || out.GenPanic != "" || out.BuildErr != "" || len(out.Results) != len(firsts) {
+			c.Violate("layerB:parser-not-built:"+p.Name, fmt.Sprintf("generate/build failed: %s %s %s", out.GenErr, out.GenPanic, out.BuildErr), genCase{Parser: p.Name, TM: p.TM})
+			continue
+		}
+		runs := 0
+		for j, f := range firsts {
+			res := out.Results[j]
+			hc := histCase{Parser: p.Name, TM: p.TM, First: f.Text, Second: histSeconds}
+			if res.Hang || res.Panic != "" || res.Extra == nil {
+				c.Violate("layerB:history-failed:"+p.Name, fmt.Sprintf("the history sweep did not complete: hang=%v panic=%q", res.Hang, res.Panic), hc)
+				continue
+			}
+			n, _ := res.Extra["runs"].(float64)
+			runs += int(n)
+			ds, _ := res.Extra["diffs"].([]any)
+			for _, d := range ds {
+				t := d.([]any)
+				s, j2 := int(t[0].(float64)), int(t[1].(float64))
+				k := hc
+				k.S = s
+				k.Second = []string{histSeconds[j2-1]}
+				c.Violate("generated:"+p.Name+":history:parse-after-cancelled-parse-differs-from-fresh", fmt.Sprintf("the same Parser and Lexer/TokenStream values parse %s + \" ! a\" + 700 x b (context cancelled at moment %d, returned %v) and then, after Init, %q: outcome %v, a fresh instance gives %v", f.Name, s, t[2], clip(histSeconds[j2-1]), t[3], t[4]), k)
+			}
+		}
+		st.runs += int64(runs)
+		st.compared += int64(runs)
+		c.Eval(int64(runs))
+		c.Add("history_runs_generated", int64(runs))
+	}
+}
+
+func replayHist(k histCase) error {
+	outs, err := genharness.RunBatch([]genharness.Spec{{Name: k.Parser, TM: k.TM, Driver: driver, Cases: []genharness.Case{
+		{Mode: "hist", Text: fmt.Sprintf("m=%d;in=%s\x00%s", k.S, k.First, strings.Join(k.Second, "\x00"))},
+	}}}, genharness.BatchOpts{CaseTimeout: 120 * time.Second})
+	if err != nil {
+		return err
+	}
+	if len(outs) != 1 || len(outs[0].Results) != 1 || outs[0].Results[0].Extra == nil {
+		return fmt.Errorf("generate/build/run failed: %s %s %s", outs[0].GenErr, outs[0].GenPanic, outs[0].BuildErr)
+	}
+	if ds, _ := outs[0].Results[0].Extra["diffs"].([]any); len(ds) > 0 {
+		return fmt.Errorf("parse after the cancelled parse differs from a fresh instance: %v", ds[0])
+	}
+	return nil
 }
 
 // ---------------------------------------------------------------------------------------------
@@ -1538,17 +1700,162 @@ func shippedPart(c *core.Ctx, st *stats) {
 	}
 }
 
+// --- shipped parsers: a cancelled parse followed by another parse on the same values -----------
+
+// shipSession holds ONE parser value and ONE token stream / lexer value of a shipped language;
+// every parse calls Init on both first, exactly as the parsers' own tests reuse them.
+type shipSession struct {
+	lang  string
+	jsP   js.Parser
+	jsS   js.TokenStream
+	tmP   tm.Parser
+	tmS   tm.TokenStream
+	testP test.Parser
+	testL test.Lexer
+}
+
+func (ss *shipSession) parse(ctx context.Context, src string, node func(t, off, end int), onErr func(off, end int)) string {
+	var err error
+	switch ss.lang {
+	case "js":
+		l := func(nt js.NodeType, off, end int) { node(int(nt), off, end) }
+		ss.jsS.Init(src, l)
+		ss.jsP.Init(func(se js.SyntaxError) bool { onErr(se.Offset, se.Endoffset); return true }, l)
+		err = ss.jsP.ParseModule(ctx, &ss.jsS)
+	case "tm":
+		l := func(nt tm.NodeType, off, end int) { node(int(nt), off, end) }
+		ss.tmS.Init(src, l)
+		ss.tmP.Init(func(se tm.SyntaxError) bool { onErr(se.Offset, se.Endoffset); return true }, l)
+		err = ss.tmP.ParseFile(ctx, &ss.tmS)
+	case "test":
+		ss.testL.Init(src)
+		ss.testP.Init(func(nt test.NodeType, flags test.NodeFlags, off, end int) { node(int(nt), off, end) })
+		err = ss.testP.ParseTest(ctx, &ss.testL)
+	}
+	switch e := err.(type) {
+	case nil:
+		return "nil"
+	case js.SyntaxError:
+		return fmt.Sprintf("syntax@%d-%d", e.Offset, e.Endoffset)
+	case tm.SyntaxError:
+		return fmt.Sprintf("syntax@%d-%d", e.Offset, e.Endoffset)
+	case test.SyntaxError:
+		return fmt.Sprintf("syntax@%d-%d", e.Offset, e.Endoffset)
+	}
+	if err == ctx.Err() {
+		return "ctx"
+	}
+	return "other: " + err.Error()
+}
+
+type shippedHistCase struct {
+	Lang   string `json:"shipped_hist"`
+	First  string `json:"first"`
+	Second string `json:"second"`
+	S      int    `json:"s"` // the first parse's context is cancelled before Parse (0) or at its S-th listener/handler call
+}
+
+// runShippedHist returns what the second parse reports after the cancelled first parse on the
+// same values (got) and on fresh values (want): error and every event.
+func runShippedHist(k shippedHistCase) (got, want string) {
+	var sp *shippedParser
+	for _, p := range shippedParsers() {
+		if p.Name == k.Lang {
+			p := p
+			sp = &p
+		}
+	}
+	observe := func(ss *shipSession) string {
+		var sb strings.Builder
+		node := func(t, off, end int) { fmt.Fprintf(&sb, " %s[%d,%d)", sp.typeName(t), off, end) }
+		res := ss.parse(context.Background(), k.Second, node, func(off, end int) { node(-1, off, end) })
+		return res + ":" + sb.String()
+	}
+	want = observe(&shipSession{lang: k.Lang})
+	ss := &shipSession{lang: k.Lang}
+	ctx, cancel := context.WithCancel(context.Background())
+	defer cancel()
+	n := 0
+	tick := func() {
+		if n++; n == k.S {
+			cancel()
+		}
+	}
+	if k.S == 0 {
+		cancel()
+	}
+	ss.parse(ctx, k.First, func(t, off, end int) { tick() }, func(off, end int) { tick() })
+	got = observe(ss)
+	return got, want
+}
+
+func clipMid(s string) string {
+	if len(s) > 220 {
+		return s[:150] + " … " + s[len(s)-60:]
+	}
+	return s
+}
+
+// shippedHistFirst: k one-token statements, a comment, one more statement, a long tail: k decides
+// where the token after the comment is relative to the 0x200-th shift.
+func shippedHistFirst(lang string, k int) string {
+	switch lang {
+	case "js":
+		return strings.Repeat(";", k) + " /*c*/ x;" + strings.Repeat(";", 700)
+	case "test":
+		return strings.Repeat("decl2 ", k) + "/*c*/ decl2 " + strings.Repeat("decl2 ", 700)
+	case "tm":
+		return "language l(go); :: lexer a: /x/ :: parser r:" + strings.Repeat(" a", k) + " /*c*/ a" + strings.Repeat(" a", 700) + " ;"
+	}
+	return ""
+}
+
+var shippedHistSeconds = map[string][]string{
+	"js":   {"/*d*/ y;", "y; /*e*/ z;", strings.Repeat(" ", 700) + "y; /*f*/", "y;"},
+	"test": {"/*d*/ decl2", "decl2 /*e*/ decl2", strings.Repeat(" ", 700) + "decl2 /*f*/ decl2", "decl2"},
+	"tm":   {"/*d*/ language l(go);", "language /*e*/ l(go);", strings.Repeat(" ", 700) + "language l(go); /*f*/", "language l(go);"},
+}
+
+func shippedHistories(c *core.Ctx, st *stats) {
+	for _, lang := range []string{"js", "tm", "test"} {
+		ks := phaseKs(c.Quick())
+		var jobs []shippedHistCase
+		for _, k := range ks {
+			first := shippedHistFirst(lang, k)
+			for _, second := range shippedHistSeconds[lang] {
+				for _, s := range []int{0, 1} {
+					jobs = append(jobs, shippedHistCase{lang, first, second, s})
+				}
+			}
+		}
+		got := make([]string, len(jobs))
+		want := make([]string, len(jobs))
+		core.ParallelFor(len(jobs), 8, func(i int) { got[i], want[i] = runShippedHist(jobs[i]) })
+		for i, j := range jobs {
+			st.runs++
+			st.compared++
+			c.Eval(1)
+			if got[i] != want[i] {
+				c.Violate("shipped:"+lang+":history:parse-after-cancelled-parse-differs-from-fresh", fmt.Sprintf("the same %s parser and stream/lexer values parse %q with a cancelled context (s=%d) and then, after Init, %q: the second parse gives %s, fresh values give %s", lang, clip(j.First), j.S, clip(j.Second), clipMid(got[i]), clipMid(want[i])), j)
+			}
+		}
+		c.Add("history_runs_shipped", int64(len(jobs)))
+	}
+}
+
 // ---------------------------------------------------------------------------------------------
 
 func run(c *core.Ctx) {
-	c.Rule("generated cancellable parsers (list grammar x cancellableFetch on/off x tokenStream on/off, optimizeTables, a value-returning list, a runtime lookahead (?= P) whose predicate shifts > 1000 tokens, accepting and failing) x inputs of 1100-1600 tokens x EVERY moment s = number of tokens delivered by the lexer(s) at which the context is cancelled (0 = before Parse .. final clock + 3 = never), plus never and an expired deadline context; shipped js/tm/test parsers x 2-3 long inputs x moments counted in listener calls (quick: every 8th + poll boundaries +-2, thorough: every); plus malformed inputs (generated recovering grammar, long and short malformed js/tm texts: every moment for the short ones) with the uncancelled run, whatever it returns, as reference; plus the phase family pad x k + lookahead statement + tail, k in 0..600 (quick: strided, all k = 500..520 mod 512), cancelled at the first callbacks and around every poll, also for grammars whose lookahead decision list tests two predicates in sequence (applyRule and lookaheadRule chains). non-trivial = cancelled run that returned the ctx error after reporting a non-empty proper prefix of the events. states = distinct (parser, input, moment, polls made when the parse stopped); transitions = parses run; traces = parses compared with the uncancelled reference")
+	c.Rule("generated cancellable parsers (list grammar x cancellableFetch on/off x tokenStream on/off, optimizeTables, a value-returning list, a runtime lookahead (?= P) whose predicate shifts > 1000 tokens, accepting and failing) x inputs of 1100-1600 tokens x EVERY moment s = number of tokens delivered by the lexer(s) at which the context is cancelled (0 = before Parse .. final clock + 3 = never), plus never and an expired deadline context; shipped js/tm/test parsers x 2-3 long inputs x moments counted in listener calls (quick: every 8th + poll boundaries +-2, thorough: every); plus malformed inputs (generated recovering grammar, long and short malformed js/tm texts: every moment for the short ones) with the uncancelled run, whatever it returns, as reference; plus the phase family pad x k + lookahead statement + tail, k in 0..600 (quick: strided, all k = 500..520 mod 512), cancelled at the first callbacks and around every poll, also for grammars whose lookahead decision list tests two predicates in sequence (applyRule and lookaheadRule chains); histories: a cancelled parse (every phase, a reported comment next to the poll point) followed, after Init, by a second parse on the same Parser + TokenStream/Lexer values, compared with fresh values (generated and shipped js/tm/test). non-trivial = cancelled run that returned the ctx error after reporting a non-empty proper prefix of the events. states = distinct (parser, input, moment, polls made when the parse stopped); transitions = parses run; traces = parses compared with the uncancelled reference")
 	c.Assume("generated parsers: the clock is advanced by a lexer-rule action `{ verifTick() }` on every token rule; shipped parsers: by the listener")
 	c.Assume("event lists are compared through a 64-bit FNV-1a chain hash over (type, offset, endoffset)")
 	st := &stats{seen: map[string]bool{}}
 	layerB(c, st)
 	layerB2(c, st)
+	layerB3(c, st)
 	debugf("layer B done")
 	shippedPart(c, st)
+	shippedHistories(c, st)
 	c.States(st.states)
 	c.Transitions(st.runs)
 	c.Traces(st.compared)
@@ -1558,6 +1865,23 @@ func replay(c *core.Ctx, raw json.RawMessage) error {
 	var probe map[string]any
 	if err := json.Unmarshal(raw, &probe); err != nil {
 		return err
+	}
+	if _, ok := probe["hist_parser"]; ok {
+		var k histCase
+		if err := json.Unmarshal(raw, &k); err != nil {
+			return err
+		}
+		return replayHist(k)
+	}
+	if _, ok := probe["shipped_hist"]; ok {
+		var k shippedHistCase
+		if err := json.Unmarshal(raw, &k); err != nil {
+			return err
+		}
+		if got, want := runShippedHist(k); got != want {
+			return fmt.Errorf("parse after the cancelled parse gives %s, fresh values give %s", clipMid(got), clipMid(want))
+		}
+		return nil
 	}
 	if _, ok := probe["shipped_parser"]; ok {
 		var k shippedCase
